@@ -1,5 +1,6 @@
 """Helpers shared by the sweep-style checks."""
 import hashlib
+import os
 import json
 import time
 
@@ -61,6 +62,10 @@ class Acc:
                 hit = True
             else:
                 self.count('other_property_clause:' + v['clause'])
+                if os.environ.get('FBMC_DEBUG_OTHER'):
+                    with open(os.environ['FBMC_DEBUG_OTHER'], 'a') as f:
+                        f.write(json.dumps({'clause': v['clause'], 'facts': v.get('facts'), 'detail': v.get('detail'),
+                                            'history': world.spec()}, default=str) + '\n')
         if world.diverged and not hit:
             self.count('histories_stopped_by_a_divergence_of_another_property')
         return hit
